@@ -69,7 +69,7 @@ fn native(prop: &str, unit: &str, inp: &str, outp: &str) {
         };
         let outs: Vec<(String, String)> = rec.outs.iter().map(|(n, v)| (n.clone(), format!("{:08x}", v.to_bits()))).collect();
         let obs: Vec<(String, bool)> = rec.obs.clone();
-        results.push(serde_json::json!({"outcome": outcome, "outs": outs, "obs": obs, "missing": rec.missing}));
+        results.push(serde_json::json!({"outcome": outcome, "outs": outs, "obs": obs, "missing": rec.missing, "notes": rec.notes}));
     }
     std::fs::write(outp, serde_json::to_string(&results).unwrap()).unwrap();
 }
